@@ -1,2 +1,39 @@
-From Coq Require Import ZArith List.
-From BT Require Import Model.RTree.
+(* C05 -- evicting nodes from the object cache never changes behaviour.
+   (a) Between operations: a stored, unchanged node that is evicted is
+   reloaded from its record.  The theorems say that after every insert and
+   delete every stored unchanged node still EQUALS its record (synced), so
+   eviction + reload is the identity at any point between operations (with
+   C04_reader for the whole tree).  Guard as in C04 (finding F16).
+   (b) Inside an operation (pins of the C extension, sweeps from inside key
+   comparisons, failing operations leaving nothing pinned): checked by the
+   harness on both implementations; not modelled (see DESIGN.md). *)
+From Coq Require Import ZArith List Bool.
+From BT Require Import Model.RTree Model.TreeSpec Model.Persist Model.PersistSpec Proofs.SyncProofs.
+Import ListNotations.
+Open Scope Z_scope.
+
+Section C05.
+Variable V : Type.
+
+Theorem C05_sync_set_partial :
+  forall (isC : bool) (veq : V -> V -> bool) (vs : bool) (ml mi fresh : nat) (t : tree V) (k : Z) (v : V)
+         (ifunset : bool) (p : pstate) (s : store V),
+  (1 <= ml)%nat -> (2 <= mi)%nat -> Inv V ml mi t -> ids_ok V fresh t ->
+  no_embed_below V true (p_stored p) t ->
+  (forall x, mem x (p_stored p) = true -> (x < fresh)%nat) ->
+  synced V t p s ->
+  let r := tset V veq vs ml mi fresh t k v ifunset in
+  synced V (s_tree r) (apply_events isC p (s_ev r)) s.
+Proof. exact (SyncProofs.sync_set V). Qed.
+
+Theorem C05_sync_del_partial :
+  forall (isC : bool) (ml mi fresh : nat) (t : tree V) (k : Z) (r : dres V) (p : pstate) (s : store V),
+  (1 <= ml)%nat -> (2 <= mi)%nat -> Inv V ml mi t -> ids_ok V fresh t ->
+  no_embed_below V true (p_stored p) t ->
+  synced V t p s -> tdel V t k = Some r ->
+  synced V (d_tree r) (apply_events isC p (d_ev r)) s.
+Proof. exact (SyncProofs.sync_del V). Qed.
+
+End C05.
+Print Assumptions C05_sync_set_partial.
+Print Assumptions C05_sync_del_partial.
